@@ -5564,12 +5564,13 @@ class Symbol:
         - user value is None or has an active indirectly set value (and symbol is defined, thus has orig_type)
         - and is not a choice symbol (sym.choice is None)
         - or has choice and the choice user selection is None
-          (choice._user_selection is None -> choice was not touched by user)
+          (choice._user_selection is None -> choice was not touched by user; the value of a choice symbol follows
+          the selection of its choice, a user value n of its own changes nothing)
         """
         return (
             all(node.prompt is None for node in self.nodes)  # promptless symbols always have default value
             or (
-                (self._user_value is None or self._has_active_indirect_set)
+                (self._user_value is None or self._has_active_indirect_set or bool(self.choice))
                 and self.orig_type
                 and ((not self.choice) or self.choice._user_selection is None)
             )
